@@ -10,6 +10,8 @@ namespace ErdosVerif.Model
 (the simulator creates tasks exactly for the six `TASK_*` types of `Event.__init__`). -/
 def Event.WF (ht : Nat → Bool) (e : Event) : Prop := e.task.isSome = ht e.etype
 
+instance (ht : Nat → Bool) (e : Event) : Decidable (Event.WF ht e) := by unfold Event.WF; infer_instance
+
 /-- `Event.__lt__` spelled out as a lexicographic comparison (any events). -/
 theorem Event.lt_iff (a b : Event) :
     Event.lt a b = true ↔
